@@ -71,13 +71,15 @@ fn metric_event<T: RealNumber>(
     u: i64,
     e: i32,
     off: i64,
+    fam: &str,
     expect: Option<(i64, i64)>,
 ) -> Option<Value> {
     let mut s = pick_s(num_bound(name, a, b, b1, b2))?;
     if off != 0 && ty == "f32" {
         s = s.min(10); // single precision next to a large offset: coarse comparison only
     }
-    let sc = 2f64.powi(e);
+    // for AUC `e` describes the score family (labels are never rescaled)
+    let sc = if name == "auc" { 1.0 } else { 2f64.powi(e) };
     let exact = |v: &i64| (*v as f64 / u as f64 + off as f64) * sc;
     // the shifted inputs must be exactly representable in T, else the case is skipped
     let fed_b: &[i64] = if scores.is_some() { &[] } else { b };
@@ -121,7 +123,7 @@ fn metric_event<T: RealNumber>(
         Some((n, d)) => (true, n, d),
         None => (false, 0, 1),
     };
-    Some(json!({"run": run, "ev": "Metric", "name": name, "ty": ty, "S": s, "U": u, "e": e, "off": off,
+    Some(json!({"run": run, "ev": "Metric", "name": name, "ty": ty, "S": s, "U": u, "e": e, "off": off, "fam": fam,
                 "a": a, "b": b, "b1": b1, "b2": b2, "status": status, "fin": q.ok(), "out": out,
                 "hasExpect": hx, "xnum": xn, "xden": xd}))
 }
@@ -139,13 +141,38 @@ fn metric(
     u: i64,
     e: i32,
     off: i64,
+    fam: &str,
     expect: Option<(i64, i64)>,
 ) -> Option<Value> {
     if ty == 0 {
-        metric_event::<f64>(run, name, "f64", a, b, scores, b1, b2, u, e, off, expect)
+        metric_event::<f64>(run, name, "f64", a, b, scores, b1, b2, u, e, off, fam, expect)
     } else {
-        metric_event::<f32>(run, name, "f32", a, b, scores, b1, b2, u, e, off, expect)
+        metric_event::<f32>(run, name, "f32", a, b, scores, b1, b2, u, e, off, fam, expect)
     }
+}
+
+/// next representable value above v (v > 0, finite) in f64 / f32
+fn next_up(v: f64, ty: usize, steps: i64) -> f64 {
+    if ty == 0 {
+        f64::from_bits(v.to_bits() + steps as u64)
+    } else {
+        f32::from_bits((v as f32).to_bits() + steps as u32) as f64
+    }
+}
+
+/// AUC scores of the order-only families, from small non-negative integers k:
+///   "scaled":    k * 2^e                       (exact power-of-two rescaling)
+///   "nextafter": 2^e advanced by k ulps        (neighbouring floats of the fed type)
+///   otherwise:   k
+/// AUC depends on the order of the scores only; the event records their dense ranks.
+fn family_scores(fam: &str, e: i32, ty: usize, ks: &[i64]) -> Vec<f64> {
+    ks.iter()
+        .map(|&k| match fam {
+            "scaled" => k as f64 * 2f64.powi(e),
+            "nextafter" => next_up(2f64.powi(e), ty, k),
+            _ => k as f64,
+        })
+        .collect()
 }
 
 fn hcv_obs(h: f64, c: f64, v: f64) -> Value {
@@ -324,7 +351,7 @@ fn main() {
                 let ex = Some((c["num"].as_i64().unwrap(), c["den"].as_i64().unwrap()));
                 for ty in 0..2 {
                     run += 1;
-                    emit!(metric(ty, run, "auc", &a, &b, Some(&sc), 1, 1, 1, 0, 0, ex));
+                    emit!(metric(ty, run, "auc", &a, &b, Some(&sc), 1, 1, 1, 0, 0, "plain", ex));
                 }
             }
         }
@@ -341,11 +368,13 @@ fn main() {
                         let a = as_iv(&c["a"]);
                         let b = as_iv(&c["b"]);
                         let name = c["name"].as_str().unwrap().to_string();
-                        let sc: Vec<f64> = b.iter().map(|&v| v as f64).collect();
+                        let fam = c["fam"].as_str().unwrap_or("plain").to_string();
+                        let e = c["e"].as_i64().unwrap() as i32;
+                        let sc = family_scores(&fam, e, ty, &b);
                         let scores = if name == "auc" { Some(&sc[..]) } else { None };
                         emit!(metric(ty, run, &name, &a, &b, scores, c["b1"].as_i64().unwrap(),
                                      c["b2"].as_i64().unwrap(), c["U"].as_i64().unwrap(),
-                                     c["e"].as_i64().unwrap() as i32, c["off"].as_i64().unwrap_or(0), None));
+                                     e, c["off"].as_i64().unwrap_or(0), &fam, None));
                     }
                     "HCV" => out.emit(hcv(ty, run, &as_iv(&c["a"]), &as_iv(&c["b"]), &as_iv(&c["a2"]), &as_iv(&c["b2"]))),
                     "ArgSort" => {
@@ -373,7 +402,7 @@ fn main() {
                             let betas: &[(i64, i64)] = if *name == "fbeta" { &BETAS } else { &BETAS[1..2] };
                             for &(b1, b2) in betas {
                                 run += 1;
-                                emit!(metric((run % 2) as usize, run, name, a, b, None, b1, b2, 1, 0, 0, None));
+                                emit!(metric((run % 2) as usize, run, name, a, b, None, b1, b2, 1, 0, 0, "plain", None));
                             }
                         }
                     }
@@ -392,7 +421,7 @@ fn main() {
                         }
                         for name in ["mse", "mae", "r2"].iter() {
                             run += 1;
-                            emit!(metric((run % 2) as usize, run, name, a, b, None, 1, 1, 1, 0, 0, None));
+                            emit!(metric((run % 2) as usize, run, name, a, b, None, 1, 1, 1, 0, 0, "plain", None));
                         }
                     }
                 }
@@ -425,7 +454,7 @@ fn main() {
                 for name in CLASSIF.iter() {
                     let (b1, b2) = if *name == "fbeta" { BETAS[r.gen_range(0..3)] } else { (1, 1) };
                     run += 1;
-                    emit!(metric(i % 2, run, name, &a, &b, None, b1, b2, 1, 0, 0, None));
+                    emit!(metric(i % 2, run, name, &a, &b, None, b1, b2, 1, 0, 0, "plain", None));
                 }
                 // accuracy is defined for any labels
                 if i % 4 == 0 {
@@ -433,7 +462,7 @@ fn main() {
                     let a: Vec<i64> = (0..n).map(|_| r.gen_range(-k..=k)).collect();
                     let b: Vec<i64> = a.iter().map(|&v| if r.gen_bool(0.6) { v } else { r.gen_range(-k..=k) }).collect();
                     run += 1;
-                    emit!(metric(i % 2, run, "accuracy", &a, &b, None, 1, 1, 1, 0, 0, None));
+                    emit!(metric(i % 2, run, "accuracy", &a, &b, None, 1, 1, 1, 0, 0, "plain", None));
                 }
             }
             // AUC: both classes present; scores without ties, heavily tied, constant
@@ -458,12 +487,41 @@ fn main() {
                     .collect();
                 let rk = dense_ranks(&sc);
                 run += 1;
-                emit!(metric(ty, run, "auc", &a, &rk, Some(&sc), 1, 1, 1, 0, 0, None));
+                emit!(metric(ty, run, "auc", &a, &rk, Some(&sc), 1, 1, 1, 0, 0, "plain", None));
+            }
+            // AUC is invariant under every strictly increasing map of the scores.  Two families
+            // move the scores away from unit scale without changing their order:
+            //  * "scaled": small integer scores times 2^e (f64: 2^-70, 2^-40, 2^40; f32: 2^-60,
+            //    2^-30, 2^40) -- distinct scores closer together than machine epsilon;
+            //  * "nextafter": neighbouring floats 2^e0 + k ulps around 1.0, 0.5 and 2^-20
+            //    (saturated probabilities, tiny probabilities).
+            let nfam = if th { 2400 } else { 360 };
+            for i in 0..nfam {
+                let ty = i % 2;
+                let n = r.gen_range(2..=30usize);
+                let a = rand_labels(&mut r, n, true);
+                let (fam, e) = if i % 4 < 2 {
+                    ("scaled", if ty == 0 { [-70, -40, 40][(i / 4) % 3] } else { [-60, -30, 40][(i / 4) % 3] })
+                } else {
+                    ("nextafter", [0, -1, -20][(i / 4) % 3])
+                };
+                let levels = [2i64, 3, 6, 40][(i / 2) % 4];
+                let ks: Vec<i64> = (0..n)
+                    .map(|k| match i % 3 {
+                        0 => a[k] * (levels / 2) + r.gen_range(0..(levels / 2).max(1)),  // perfectly separating
+                        1 => r.gen_range(0..levels) + if a[k] == 1 && r.gen_bool(0.5) { 1 } else { 0 },
+                        _ => r.gen_range(0..levels),
+                    })
+                    .collect();
+                let sc = family_scores(fam, e, ty, &ks);
+                let rk = dense_ranks(&sc);
+                run += 1;
+                emit!(metric(ty, run, "auc", &a, &rk, Some(&sc), 1, 1, 1, e, 0, fam, None));
             }
             // regression: targets a/U, b/U scaled by 2^e
             for i in 0..cnt {
                 let n = rand_len(&mut r, i < nbig);
-                let ty = i % 2;
+                let ty = (i / 2) % 2;
                 let u = [1i64, 1, 2, 4][r.gen_range(0..4)];
                 let m = if n > 40 { r.gen_range(1..=6i64) } else { r.gen_range(1..=30i64) };
                 let a: Vec<i64> = if i % 11 == 0 {
@@ -476,10 +534,18 @@ fn main() {
                     1 => a.iter().map(|&v| (v + r.gen_range(-1..=1)).max(-m).min(m)).collect(),
                     _ => a.clone(),
                 };
-                let e = if i % 2 == 0 { 0 } else if ty == 0 { r.gen_range(-60..=60) } else { r.gen_range(-25..=25) };
+                let e = if i % 2 == 0 {
+                    0
+                } else if i % 8 < 4 {
+                    [-40, 40][(i / 8) % 2]               // far rescaling, both element types
+                } else if ty == 0 {
+                    r.gen_range(-60..=60)
+                } else {
+                    r.gen_range(-25..=25)
+                };
                 for name in ["mse", "mae", "r2"].iter() {
                     run += 1;
-                    emit!(metric(ty, run, name, &a, &b, None, 1, 1, u, e, 0, None));
+                    emit!(metric(ty, run, name, &a, &b, None, 1, 1, u, e, 0, "plain", None));
                 }
             }
             // OFFSET family ("real targets of any scale"): small-integer residual structure on
@@ -508,7 +574,7 @@ fn main() {
                 let e = if i % 5 == 0 && ty == 0 { r.gen_range(-40..=40) } else { 0 };
                 for name in ["mse", "mae", "r2"].iter() {
                     run += 1;
-                    emit!(metric(ty, run, name, &a, &b, None, 1, 1, u, e, off, None));
+                    emit!(metric(ty, run, name, &a, &b, None, 1, 1, u, e, off, "plain", None));
                 }
             }
             // length mismatch: the pairwise metrics must reject
@@ -524,7 +590,7 @@ fn main() {
                 }
                 for name in ["accuracy", "precision", "recall", "fbeta", "mse", "mae", "r2"].iter() {
                     run += 1;
-                    emit!(metric(i % 2, run, name, &a, &b, None, 1, 1, 1, 0, 0, None));
+                    emit!(metric(i % 2, run, name, &a, &b, None, 1, 1, 1, 0, 0, "plain", None));
                 }
             }
             // clusterings: 1..8 classes / clusters, arbitrary integer labels
